@@ -275,11 +275,11 @@ Proof.
 Qed.
 
 Lemma restart_fold_CInv b k c now m j : forall l s e, CInv b now m j s ->
-  CInv b now m j (fst (fold_left (fun (acc : xs * bool) stage => if snd acc then acc else at_sim_start k c now m stage (fst acc)) l (s, e))).
+  CInv b now m j (fst (fold_left (fun (acc : xs * bool) stage => if snd acc then acc else restart_stage k c now m stage (fst acc)) l (s, e))).
 Proof.
   induction l as [|st l IH]; intros s e H; cbn [fold_left fst snd]; [exact H|].
   destruct e; [apply IH, H|].
-  pose proof (at_sim_start_CInv b k c now m st j s H) as H1.
+  pose proof (at_sim_start_CInv b k c now m st j s H) as H1. unfold restart_stage.
   destruct (at_sim_start k c now m st s) as [s1 e1]. apply IH, H1.
 Qed.
 
